@@ -78,7 +78,7 @@ func allStringsValid(v jv.Val) bool {
 // c11Op draws one string operation; strings are supplied through the document
 // (fields s, p, q) or as literals. alphabet restricts the characters (for the
 // renaming check).
-func c11Op(t *rapid.T, str func(max int) string, sub func(s string, max int) string) (ast.Expr, jv.Val, string, string) {
+func c11Op(t *rapid.T, str func(max int) string, sub func(s string, max int) string, prefixed func(k int) []string) (ast.Expr, jv.Val, string, string) {
 	s := str(10)
 	n := len([]rune(s))
 	var ms []jv.Member
@@ -105,19 +105,31 @@ func c11Op(t *rapid.T, str func(max int) string, sub func(s string, max int) str
 		}
 		return ast.I64(int64(rapid.IntRange(-n-1, n+1).Draw(t, label)))
 	}
+	// keys: pieces of s, or strings with a common prefix of 0..17 bytes that go
+	// on with characters of different encoded lengths
+	keysOf := func(k int) []string {
+		if k >= 2 && rapid.IntRange(0, 2).Draw(t, "sharedprefix") == 0 {
+			return prefixed(k)
+		}
+		out := make([]string, k)
+		for i := range out {
+			out[i] = sub(s, 3)
+		}
+		return out
+	}
 	strArr := func() jv.Val {
 		k := rapid.IntRange(0, 5).Draw(t, "narr")
 		a := make([]jv.Val, k)
-		for i := range a {
-			a[i] = jv.VStr(sub(s, 3))
+		for i, key := range keysOf(k) {
+			a[i] = jv.VStr(key)
 		}
 		return jv.VArr(a)
 	}
 	recs := func() jv.Val {
 		k := rapid.IntRange(0, 6).Draw(t, "nrec")
 		a := make([]jv.Val, k)
-		for i := range a {
-			a[i] = jv.VObj([]jv.Member{{K: "k", V: jv.VStr(sub(s, 3))}, {K: "id", V: jv.VInt(int64(i))}})
+		for i, key := range keysOf(k) {
+			a[i] = jv.VObj([]jv.Member{{K: "k", V: jv.VStr(key)}, {K: "id", V: jv.VInt(int64(i))}})
 		}
 		return jv.VArr(a)
 	}
@@ -210,7 +222,7 @@ func c11Op(t *rapid.T, str func(max int) string, sub func(s string, max int) str
 func TestC11_Strings(t *testing.T) {
 	c := collector("C11", "strings")
 	check(t, func(t *rapid.T) {
-		e, doc, op, s := c11Op(t, func(max int) string { return mixedString(t, max) }, func(s string, max int) string { return substringOf(t, s, max) })
+		e, doc, op, s := c11Op(t, func(max int) string { return mixedString(t, max) }, func(s string, max int) string { return substringOf(t, s, max) }, func(k int) []string { return prefixedKeys(t, k) })
 		text := ast.RenderWith(e, gen.Chooser{T: t})
 		c.Case()
 		res, _ := model.Eval(e, doc)
@@ -377,7 +389,17 @@ func TestC11_Rename(t *testing.T) {
 			j := rapid.IntRange(i, minInt(len(s), i+max)).Draw(t, "to")
 			return s[i:j]
 		}
-		e, doc, op, _ := c11Op(t, str, sub)
+		// keys with a common prefix and tails from the renaming alphabet (the
+		// renamed keys then share a multi-byte prefix)
+		prefixed := func(k int) []string {
+			prefix := str(12)
+			out := make([]string, k)
+			for i := range out {
+				out[i] = prefix + str(2)
+			}
+			return out
+		}
+		e, doc, op, _ := c11Op(t, str, sub, prefixed)
 		m := drawRenaming(t)
 		re := renameExpr(e, m)
 		rdoc := renameVal(doc, m)
